@@ -71,13 +71,17 @@ def importable(tier: str = "quick", known: list | None = None, **_: Any) -> dict
     docs = all_skeleton_docs()
     combos = [("none", {}), ("poetry", {}), ("pdm", {"literal_enums": True}), ("setup", {"docstrings_on_attributes": True}), ("none", {"literal_enums": True, "docstrings_on_attributes": True})]
     if tier == "quick":
-        per_doc = lambda i: [combos[0], combos[1 + i % 4]]  # noqa: E731
+        per_doc = lambda i: [combos[0], combos[1 + i % 4], combos[4]] if i % 3 == 0 else [combos[0], combos[1 + i % 4]]  # noqa: E731
+        has_enum = lambda d: '"enum"' in json.dumps(d)  # noqa: E731
     else:
         per_doc = lambda i: combos  # noqa: E731
     root = gen.scratch("verif-imp-")
     try:
         for i, (name, d) in enumerate(sorted(docs.items())):
-            for meta, cf in per_doc(i):
+            todo = list(per_doc(i))
+            if tier == "quick" and has_enum(d) and not any(cf.get("literal_enums") for _, cf in todo):
+                todo.append(combos[4])  # documents with enums are always also generated in the literal style
+            for meta, cf in todo:
                 pkg = "sk_" + name.split(":")[1] + "_" + meta + ("_le" if cf.get("literal_enums") else "") + ("_da" if cf.get("docstrings_on_attributes") else "")
                 errs, pdir = gen.generate(d, root, pkg, meta=meta, **cf)
                 n += 1
